@@ -272,3 +272,198 @@ Example decode_terminates_ex :
     DOk (VObj [([97], VInt (-1)); ([122], VArr [VInt 1; VInt 2; VInt 3])]) [] /\
   zw_free zw_schema = false.
 Proof. vm_compute. auto. Qed.
+
+(* ------------------------------------------------------------ exhaust arrays used as documented *)
+(* "an array with this option must be the last type in the encoded struct", items at least one
+   byte wide: then the round trip holds. *)
+
+Section Tail.
+Variable round32 : Z -> option Z.
+Variable widen32 : Z -> Z.
+Notation encode := (encode round32).
+Notation decode := (decode widen32).
+Notation norm := (norm round32 widen32).
+
+Lemma take_nil n : 0 < n -> take n [] = None.
+Proof. intros. unfold take. destruct (Nat.ltb_spec (@length Z []) (Z.to_nat n)); auto. simpl in *. lia. Qed.
+
+Lemma take_nil0 : take 0 [] = Some ([], []).
+Proof. reflexivity. Qed.
+
+Lemma decode_n_nil (d : list Z -> dres) n acc :
+  d [] = DShort \/ (exists v, d [] = DOk v []) ->
+  (d [] = DShort /\ (0 < n)%nat /\ decode_n d n [] acc = DShort) \/
+  (exists v, decode_n d n [] acc = DOk v [] /\ (n = 0%nat \/ exists x, d [] = DOk x [])).
+Proof.
+  intros [Hs | [x Hx]].
+  - destruct n; [right; eexists; split; [reflexivity|auto] | left]. cbn [decode_n]. rewrite Hs. repeat split; auto; lia.
+  - right. revert acc; induction n; intros acc.
+    + eexists; split; [reflexivity|auto].
+    + cbn [decode_n]. rewrite Hx. destruct (IHn (x :: acc)) as (v & Hv & _). eauto.
+Qed.
+
+(* on the empty buffer a round-trippable schema either fails with the short-read error or is
+   zero bytes wide *)
+Lemma decode_empty s : rt_ok s = true -> forall fuel,
+  decode fuel s [] = DShort \/ (exists v, decode fuel s [] = DOk v [] /\ min_width s = 0%nat).
+Proof.
+  induction s as [t f nt | m it IH | req ps IH] using schema_ind'; intros Hok fuel.
+  - cbn [rt_ok] in Hok. cbn [decode min_width].
+    destruct t; destruct f as [f|]; try discriminate Hok; cbn [leaf_ok] in Hok;
+      try (destruct f as [i| | | | |n|n|n]; try discriminate Hok).
+    all: cbn [decode_leaf bsize leaf_min].
+    all: try (left; rewrite take_nil by (try destruct i; simpl; lia); reflexivity).
+    + (* BStr n *) apply Z.leb_le in Hok. destruct (Z.eq_dec n 0) as [->|].
+      * right. rewrite take_nil0. destruct nt; eauto.
+      * left. rewrite take_nil by lia. reflexivity.
+    + (* BPad n *) apply Z.leb_le in Hok. destruct (Z.eq_dec n 0) as [->|].
+      * right. rewrite take_nil0. eauto.
+      * left. rewrite take_nil by lia. reflexivity.
+    + right. eauto.
+  - destruct m as [n| |f]; [| discriminate Hok |]; cbn [rt_ok] in Hok; rewrite decode_arr_eq.
+    + rewrite decode_count_spec. cbn [min_width].
+      destruct (IH Hok fuel) as [Hs | (x & Hx & Hw)].
+      * destruct (decode_n_nil (decode fuel it) (Z.to_nat n) [] (or_introl Hs)) as [(_ & _ & H)|(v & H & [Hn|[y Hy]])].
+        -- left; auto.
+        -- right. exists v. split; auto. rewrite Hn. reflexivity.
+        -- congruence.
+      * destruct (decode_n_nil (decode fuel it) (Z.to_nat n) [] (or_intror (ex_intro _ x Hx))) as [(H & _)|(v & H & _)].
+        -- congruence.
+        -- right. exists v. split; auto. rewrite Hw. lia.
+    + left. rewrite take_nil by (destruct f; simpl; lia). reflexivity.
+  - cbn [rt_ok] in Hok. rewrite decode_obj_eq, min_width_obj.
+    generalize (@nil (key * value)).
+    induction IH as [|[[k m] sub] r Hp _ IHr]; intros acc.
+    + right. eexists. split; reflexivity.
+    + cbn [forallb snd] in Hok. apply andb_true_iff in Hok as [H1 H2].
+      cbn [decode_fields fields_min snd]. fold (decode_fields (decode fuel)). fold (fields_min min_width).
+      cbn [snd] in Hp. destruct (Hp H1 fuel) as [-> | (x & -> & ->)]; [left; reflexivity|].
+      apply IHr; auto.
+Qed.
+
+Lemma encode_min_width s : rt_ok s = true -> forall v bs,
+  encode s v = EOk bs -> (min_width s <= length bs)%nat.
+Proof.
+  intros Hok v bs He.
+  pose proof (struct_roundtrip_gen round32 widen32 s Hok 0%nat v bs [] He) as H.
+  rewrite app_nil_r in H. apply decode_consumes in H. simpl in H. lia.
+Qed.
+
+Lemma exhaust_loop_roundtrip it fuel : rt_ok it = true -> (0 < min_width it)%nat ->
+  forall l bs k acc,
+    encode_list (encode it) l = EOk bs -> (length l < k)%nat ->
+    decode_exhaust (decode fuel it) k bs acc = DOk (VArr (rev acc ++ map (norm it) l)) [].
+Proof.
+  intros Hok Hw l; induction l as [|x r IH]; intros bs k acc He Hk.
+  - injection He as <-. destruct k; [lia|]. cbn [decode_exhaust].
+    destruct (decode_empty it Hok fuel) as [-> | (v & _ & H0)]; [|lia].
+    simpl. rewrite app_nil_r. reflexivity.
+  - cbn [encode_list] in He. fold (encode_list (encode it)) in He. unfold ebind in He.
+    destruct (encode it x) as [bx|] eqn:Ex; [|discriminate He].
+    destruct (encode_list (encode it) r) as [br|] eqn:Er; [|discriminate He].
+    injection He as <-. destruct k; [simpl in Hk; lia|]. cbn [decode_exhaust].
+    rewrite (struct_roundtrip_gen round32 widen32 it Hok fuel x bx br Ex).
+    rewrite (IH br k (norm it x :: acc) eq_refl) by (simpl in Hk; lia).
+    cbn [rev map]. rewrite <- app_assoc. reflexivity.
+Qed.
+
+Lemma encode_list_length it l bs : rt_ok it = true -> (0 < min_width it)%nat ->
+  encode_list (encode it) l = EOk bs -> (length l <= length bs)%nat.
+Proof.
+  intros Hok Hw; revert bs; induction l as [|x r IH]; intros bs He; [simpl; lia|].
+  cbn [encode_list] in He. fold (encode_list (encode it)) in He. unfold ebind in He.
+  destruct (encode it x) as [bx|] eqn:Ex; [|discriminate He].
+  destruct (encode_list (encode it) r) as [br|] eqn:Er; [|discriminate He].
+  injection He as <-. pose proof (encode_min_width it Hok x bx Ex). specialize (IH br eq_refl).
+  rewrite app_length. simpl. lia.
+Qed.
+
+Lemma decode_fields_app (D : schema -> list Z -> dres) ps qs : forall buf acc,
+  decode_fields D (ps ++ qs) buf acc =
+  match decode_fields D ps buf acc with
+  | DOk (VObj kv) rest => decode_fields D qs rest (rev kv)
+  | r => r
+  end.
+Proof.
+  induction ps as [|[[k m] sub] r IH]; intros buf acc.
+  - simpl. rewrite rev_involutive. reflexivity.
+  - cbn [app decode_fields]. fold (decode_fields D).
+    destruct (D sub buf); auto.
+Qed.
+
+Lemma encode_fields_app (E : schema -> value -> eres (list Z)) kv ps qs :
+  encode_fields E kv (ps ++ qs) =
+  ebind (encode_fields E kv ps) (fun a => ebind (encode_fields E kv qs) (fun b => EOk (a ++ b))).
+Proof.
+  induction ps as [|[[k m] sub] r IH].
+  - simpl. destruct (encode_fields E kv qs); reflexivity.
+  - cbn [app encode_fields]. fold (encode_fields E kv). rewrite IH. unfold ebind.
+    destruct (match lookup k kv with
+              | Some x => EOk x
+              | None => match p_default m with Some d => EOk d | None => EErr EKey end
+              end); auto.
+    destruct (E sub a); auto. destruct (encode_fields E kv r); auto.
+    destruct (encode_fields E kv qs); auto. rewrite app_assoc. reflexivity.
+Qed.
+
+Lemma norm_fields_app (N : schema -> value -> value) kv ps qs :
+  norm_fields N kv (ps ++ qs) = norm_fields N kv ps ++ norm_fields N kv qs.
+Proof.
+  induction ps as [|[[k m] sub] r IH]; auto.
+  cbn [app norm_fields]. fold (norm_fields N kv). rewrite IH.
+  destruct (match lookup k kv with Some x => Some x | None => p_default m end); reflexivity.
+Qed.
+
+(* (a) for the documented use of noLengthEncodingExhaustBuffer: an object whose last encoded
+   property is an exhaust array of items that are at least one byte wide *)
+Theorem exhaust_tail_roundtrip req ps k m it v bs fuel :
+  forallb (fun p : prop => rt_ok (snd p)) ps = true ->
+  rt_ok it = true -> (0 < min_width it)%nat ->
+  encode (SObj req (ps ++ [(k, m, SArr AExhaust it)])) v = EOk bs ->
+  (length bs < fuel)%nat ->
+  decode fuel (SObj req (ps ++ [(k, m, SArr AExhaust it)])) bs =
+    DOk (norm (SObj req (ps ++ [(k, m, SArr AExhaust it)])) v) [].
+Proof.
+  intros Hps Hit Hw He Hf.
+  destruct v as [| | | | | |kv]; try discriminate He.
+  rewrite encode_obj_eq, encode_fields_app in He. unfold ebind in He.
+  destruct (encode_fields encode kv ps) as [a|] eqn:Ea; [|discriminate He].
+  destruct (encode_fields encode kv [(k, m, SArr AExhaust it)]) as [b|] eqn:Eb; [|discriminate He].
+  injection He as <-.
+  rewrite decode_obj_eq, norm_obj_eq, decode_fields_app, norm_fields_app.
+  assert (HF : Forall (fun p : prop => rt_ok (snd p) = true -> forall fuel v bs rest,
+                         encode (snd p) v = EOk bs ->
+                         decode fuel (snd p) (bs ++ rest) = DOk (norm (snd p) v) rest) ps).
+  { apply Forall_forall. intros p _ H f' v' b' r'. apply struct_roundtrip_gen; auto. }
+  rewrite (fields_roundtrip round32 widen32 fuel kv ps HF Hps a b [] Ea).
+  cbn [rev app].
+  (* the last field *)
+  cbn [encode_fields] in Eb. unfold ebind in Eb.
+  cbn [norm_fields decode_fields].
+  destruct (lookup k kv) as [x|] eqn:Lk.
+  - destruct (encode (SArr AExhaust it) x) as [bx|] eqn:Ex; [|discriminate Eb].
+    injection Eb as <-. rewrite app_nil_r.
+    destruct x as [| | | | |l|]; try discriminate Ex.
+    rewrite encode_arr_eq in Ex. rewrite decode_arr_eq.
+    rewrite (exhaust_loop_roundtrip it fuel Hit Hw l bx fuel [] Ex).
+    + cbn [rev app]. rewrite rev_involutive. reflexivity.
+    + pose proof (encode_list_length it l bx Hit Hw Ex). rewrite !app_length in Hf. simpl in Hf. lia.
+  - destruct (p_default m) as [x|] eqn:Dm; [|discriminate Eb].
+    destruct (encode (SArr AExhaust it) x) as [bx|] eqn:Ex; [|discriminate Eb].
+    injection Eb as <-. rewrite app_nil_r.
+    destruct x as [| | | | |l|]; try discriminate Ex.
+    rewrite encode_arr_eq in Ex. rewrite decode_arr_eq.
+    rewrite (exhaust_loop_roundtrip it fuel Hit Hw l bx fuel [] Ex).
+    + cbn [rev app]. rewrite rev_involutive. reflexivity.
+    + pose proof (encode_list_length it l bx Hit Hw Ex). rewrite !app_length in Hf. simpl in Hf. lia.
+Qed.
+
+End Tail.
+
+Example exhaust_tail_roundtrip_ex :
+  let s := SObj None [([97], {| p_index := 0; p_default := None |}, SLeaf TInteger (Some (BInt Ih)) false);
+                      ([122], {| p_index := 0; p_default := None |}, SArr AExhaust (SLeaf TInteger (Some (BInt IB)) false))] in
+  let v := VObj [([122], VArr [VInt 1; VInt 2; VInt 3]); ([97], VInt (-1))] in
+  encode round32_impl s v = EOk [255; 255; 1; 2; 3] /\
+  decode widen32_impl 6 s [255; 255; 1; 2; 3] = DOk (norm round32_impl widen32_impl s v) [].
+Proof. vm_compute. auto. Qed.
